@@ -231,22 +231,67 @@ def _unroll_literal_loops(tree: ast.AST) -> None:
     else) is `t = e1; BODY; t = e2; BODY; ..` - the rules then see each instance of the body with its own element."""
     import copy as _copy
 
+    # locals bound exactly once to a literal tuple / list and only read as the iterable of one loop
+    tables: Dict[int, Dict[str, ast.AST]] = {}
+    for fn in ast.walk(tree):
+        if not isinstance(fn, (ast.FunctionDef, ast.AsyncFunctionDef)):
+            continue
+        st_: Dict[str, List[ast.AST]] = {}
+        ld_: Dict[str, int] = {}
+        for x in ast.walk(fn):
+            if isinstance(x, ast.Name):
+                if isinstance(x.ctx, ast.Store):
+                    st_.setdefault(x.id, []).append(x)
+                else:
+                    ld_[x.id] = ld_.get(x.id, 0) + 1
+        for x in ast.walk(fn):
+            if isinstance(x, ast.Assign) and len(x.targets) == 1 and isinstance(x.targets[0], ast.Name) and isinstance(x.value, (ast.Tuple, ast.List)) \
+                    and len(st_.get(x.targets[0].id, [])) == 1 and ld_.get(x.targets[0].id) == 1:
+                for lp in ast.walk(fn):
+                    if isinstance(lp, ast.For) and isinstance(lp.iter, ast.Name) and lp.iter.id == x.targets[0].id:
+                        tables[id(lp)] = x.value
+
     class T(ast.NodeTransformer):
         def visit_For(self, n):
             self.generic_visit(n)
-            it = n.iter
+            it = tables.get(id(n), n.iter)
             if not (isinstance(it, (ast.Tuple, ast.List)) and 1 <= len(it.elts) <= 8 and not n.orelse and not any(isinstance(e, ast.Starred) for e in it.elts)):
                 return n
-            if any(isinstance(x, (ast.Break, ast.Continue, ast.Return, ast.FunctionDef, ast.Lambda, ast.Yield, ast.YieldFrom)) for b in n.body for x in ast.walk(b)):
+            if any(isinstance(x, (ast.Break, ast.Continue, ast.FunctionDef, ast.Lambda, ast.Yield, ast.YieldFrom)) for b in n.body for x in ast.walk(b)):
                 return n
             if sum(1 for b in n.body for _ in ast.walk(b)) > 400:
                 return n
             out = []
+            tnames = [t for t in ([n.target] if isinstance(n.target, ast.Name) else (n.target.elts if isinstance(n.target, (ast.Tuple, ast.List)) else [None]))]
+            body_stores = {x.id for b in n.body for x in ast.walk(b) if isinstance(x, ast.Name) and isinstance(x.ctx, ast.Store)}
+
+            def simple(v):
+                return isinstance(v, (ast.Constant, ast.Name, ast.Lambda)) or (isinstance(v, ast.Attribute) and simple(v.value))
             for e in it.elts:
-                out.append(ast.copy_location(ast.Assign(targets=[_copy.deepcopy(n.target)], value=e), n))
-                out += [_copy.deepcopy(b) for b in n.body]
+                vals = [e] if isinstance(n.target, ast.Name) else (list(e.elts) if isinstance(e, (ast.Tuple, ast.List)) and len(e.elts) == len(tnames) else None)
+                if vals is not None and all(isinstance(t, ast.Name) and t.id not in body_stores for t in tnames) and all(simple(v) for v in vals):
+                    # substitute the element for the loop variable (no temporaries)
+                    sub = {t.id: v for t, v in zip(tnames, vals)}
+
+                    class S(ast.NodeTransformer):
+                        def visit_Name(self, x):
+                            return _copy.deepcopy(sub[x.id]) if isinstance(x.ctx, ast.Load) and x.id in sub else x
+                    out += [S().visit(_copy.deepcopy(b)) for b in n.body]
+                else:
+                    out.append(ast.copy_location(ast.Assign(targets=[_copy.deepcopy(n.target)], value=_copy.deepcopy(e)), n))
+                    out += [_copy.deepcopy(b) for b in n.body]
+            if id(n) in tables:
+                dead.add(n.iter.id)
             return out
+    dead: Set[str] = set()
     T().visit(tree)
+    if dead:
+        class D(ast.NodeTransformer):
+            def visit_Assign(self, x):
+                if len(x.targets) == 1 and isinstance(x.targets[0], ast.Name) and x.targets[0].id in dead and isinstance(x.value, (ast.Tuple, ast.List)):
+                    return ast.copy_location(ast.Pass(), x)
+                return x
+        D().visit(tree)
     ast.fix_missing_locations(tree)
 
 
